@@ -178,6 +178,8 @@ def np_nanmin(x, *a, **k):
     arr = x.values if hasattr(x, 'values') and not isinstance(x, numpy.ndarray) else x
     if _objarr(numpy.asarray(arr, dtype=object)) and has_sym(arr) and not a and not k:
         return _nan_reduce(list(numpy.asarray(arr, dtype=object).reshape(-1)), lambda v, acc: v < acc)
+    if isinstance(arr, numpy.ndarray) and arr.dtype == object:
+        x = arr.astype(float)        # an object array that holds plain floats only (e.g. every value missing)
     return numpy.nanmin(x, *a, **k)
 
 
@@ -185,6 +187,8 @@ def np_nanmax(x, *a, **k):
     arr = x.values if hasattr(x, 'values') and not isinstance(x, numpy.ndarray) else x
     if _objarr(numpy.asarray(arr, dtype=object)) and has_sym(arr) and not a and not k:
         return _nan_reduce(list(numpy.asarray(arr, dtype=object).reshape(-1)), lambda v, acc: v > acc)
+    if isinstance(arr, numpy.ndarray) and arr.dtype == object:
+        x = arr.astype(float)        # an object array that holds plain floats only (e.g. every value missing)
     return numpy.nanmax(x, *a, **k)
 
 
